@@ -306,6 +306,25 @@ func (CoreScenario) Gen(r *rand.Rand, prop string) *SvcCase {
 		sortOpsByEpoch(a.Ops)
 		c.Actors = append(c.Actors, a)
 	}
+	if !lifecycle && chance(r, 10) {
+		// a deep backlog: many callbacks for one group and a few for
+		// another, on few workers (a policy that depends on how many
+		// callbacks a group has had, or has left, needs this to show)
+		c.Workers = pick(r, 1, 2, 2, 3)
+		a := ActorSpec{Name: "burst"}
+		g := pick(r, "mg", "1", "fresh")
+		for i, n := 0, 10+r.IntN(16); i < n; i++ {
+			op := Op{ID: next(), Kind: "withgroup", Group: g}
+			if chance(r, 15) {
+				op.Group = "other"
+			}
+			if chance(r, 30) {
+				op.Script = []string{"y"}
+			}
+			a.Ops = append(a.Ops, op)
+		}
+		c.Actors = append(c.Actors, a)
+	}
 	return c
 }
 
